@@ -33,6 +33,39 @@ func CmdSelftest(args []string) int {
 			return 2
 		}
 	}
+	// the race detector's own conformance programs: four racy ones (all
+	// reported) and six correctly synchronised ones (none reported)
+	ld2, err := Load([]string{"fasthttputil"}, "amd64")
+	if err != nil {
+		fmt.Fprintln(os.Stderr, "selftest: load:", err)
+		return 2
+	}
+	os.Setenv("GOSYM_RACE_ALL", "1")
+	defer os.Unsetenv("GOSYM_RACE_ALL")
+	sp2 := ld2.Pkgs["fasthttputil"]
+	for h, want := range map[string]int{"vhRaceSelfRacy": 4, "vhRaceSelfClean": 0} {
+		fn := sp2.Func(h)
+		if fn == nil {
+			fmt.Fprintln(os.Stderr, "selftest: missing harness", h)
+			return 2
+		}
+		st, err := interp.Explore(ld2.Prog, fn, interp.ExploreOpts{
+			Workers: 2, Solver: "z3-new", TimeoutMs: 10000, WordBits: ld2.WordBits, InitPkg: sp2, MaxViolations: 100,
+			Setup: func(it *interp.Interp) { it.InitAllow = DefaultInitAllow; it.RaceOn() },
+		})
+		races := 0
+		if st != nil {
+			for _, v := range st.Violations {
+				if v.Assert == "no-data-race" {
+					races++
+				}
+			}
+		}
+		if err != nil || len(st.Problems) > 0 || races != want || len(st.Violations) != want {
+			fmt.Fprintf(os.Stderr, "selftest: %s: err=%v races reported=%d (want %d) problems=%v\n", h, err, races, want, st.Problems)
+			return 2
+		}
+	}
 	fmt.Println("selftest ok")
 	return 0
 }
